@@ -105,7 +105,7 @@ TsigRdata(msg, r) ==
     ELSE LET ms == U16At(msg, o1 + 8)
              o2 == o1 + 10 + ms
              T(err, oth, full) ==
-               [ok |-> TRUE, full |-> full, key |-> r.name, alg |-> a.name,
+               [ok |-> TRUE, full |-> full, key |-> r.name, class |-> r.class, ttl |-> r.ttl, alg |-> a.name,
                 time |-> << U16At(msg, o1), U16At(msg, o1 + 2), U16At(msg, o1 + 4) >>,
                 fudge |-> U16At(msg, o1 + 6), mac |-> Sub(msg, o1 + 11, o2),
                 origId |-> U16At(msg, o2), error |-> err, other |-> oth] IN
@@ -124,11 +124,15 @@ TsigRdata(msg, r) ==
 (*     = "badtsig"    last additional record has type TSIG but broken RDATA   *)
 (*     = "ok"         t = the TSIG variables, body = the message without the  *)
 (*                    TSIG record and with ARCOUNT decremented                *)
-(* strict = the TSIG RDATA is complete, class is ANY, TTL is 0 and the record  *)
-(* ends the message, as RFC 8945 4.2 demands.  AMBIG: RFC 8945 does not say   *)
-(* what a receiver does with another class / TTL (error, digest the constant, *)
-(* digest the received value) or with octets after the TSIG; verdicts are     *)
-(* asserted for strict messages only.                                         *)
+(* wf     = the TSIG RDATA is complete and the record ends the message.       *)
+(*          AMBIG otherwise (see TsigRdata; octets after the TSIG): no        *)
+(*          verdict is asserted.                                              *)
+(* strict = wf, class ANY, TTL 0: what RFC 8945 4.2 lets a signer send.       *)
+(* CLASS and TTL of the TSIG record are TSIG variables (4.3.3): the digest    *)
+(* covers the values of the record AS RECEIVED, so a message whose TSIG class *)
+(* or TTL was altered after signing does not verify.  A non-strict message    *)
+(* whose MAC does cover its odd class / TTL may be accepted or refused        *)
+(* (AMBIG: 5.2 lets a receiver treat it as FORMERR).                          *)
 SplitTsig(msg) ==
   IF Len(msg) < 12 THEN [st |-> "malformed"]
   ELSE IF ArCount(msg) = 0 THEN [st |-> "nosig"]
@@ -142,14 +146,18 @@ SplitTsig(msg) ==
           IF ~t.ok THEN [st |-> "badtsig"]
           ELSE [st |-> "ok", t |-> t,
                 body |-> SetU16(Take(msg, w.last), 10, ArCount(msg) - 1),
-                strict |-> t.full /\ r.class = ClassANY /\ r.ttl = <<0, 0, 0, 0>> /\ w.end = Len(msg)]
+                wf |-> t.full /\ w.end = Len(msg),
+                strict |-> t.full /\ w.end = Len(msg) /\ r.class = ClassANY /\ r.ttl = <<0, 0, 0, 0>>]
 
 -----------------------------------------------------------------------------
 (* RFC 8945 4.3: what the MAC is computed over.                               *)
-(* t: [key, alg (names as label sequences), time (T48), fudge, error, other]  *)
+(* t: [key, alg (names as label sequences), class, ttl (4 octets) -- of the   *)
+(* TSIG record as sent / as received --, time (T48), fudge, error, other]     *)
+
+TTL0 == <<0, 0, 0, 0>>
 
 TsigVars(t) ==
-  EncName(LowerName(t.key)) \o U16(ClassANY) \o U32(0) \o EncName(LowerName(t.alg))
+  EncName(LowerName(t.key)) \o U16(t.class) \o t.ttl \o EncName(LowerName(t.alg))
     \o Limbs(t.time) \o U16(t.fudge) \o U16(t.error) \o U16(Len(t.other)) \o t.other
 
 TimerVars(t) == Limbs(t.time) \o U16(t.fudge)
@@ -210,7 +218,7 @@ SignEnv(s, body, t, secret) ==
 EnvDigest(s, msg) ==
   LET p == SplitTsig(msg) IN
   IF p.st # "ok" THEN [st |-> p.st]
-  ELSE [st |-> "ok", strict |-> p.strict, t |-> p.t, body |-> p.body,
+  ELSE [st |-> "ok", wf |-> p.wf, strict |-> p.strict, t |-> p.t, body |-> p.body,
         digest |-> DigestInput(s.prev, p.body, p.t.origId, p.t, s.timers),
         next |-> [prev |-> p.t.mac, timers |-> TRUE]]
 
